@@ -12,7 +12,9 @@ package llrp
 //   - MessageHandlers / the default handler record the header they were called with, read the
 //     scripted number of bytes from msg.payload (k may exceed n: then they hit EOF), and
 //     return or panic;
-//   - awaiting callers (goroutines blocked in c.send) record the reply header and resp.data().
+//   - awaiting callers record what they are HANDED, through each way the API offers of awaiting a
+//     reply: c.send + resp.data() (what SendMessage is made of; also shows the reply header),
+//     c.send + resp.UnmarshalTo, the public SendMessage, the public SendFor.
 // One JSON request line = one scenario; one JSON answer line = everything observed.
 
 import (
@@ -67,6 +69,10 @@ type c04Step struct {
 	SegMax  int        `json:"segmax"`
 	SegCuts []int      `json:"segcuts"` // seg = "cuts": offsets into the chunk at which a new segment starts
 	Raw     string     `json:"raw"` // hex, written as is, not waited for
+	// op = "send": how the caller awaits its reply: "" = c.send + resp.data(); "unmarshal" = c.send +
+	// resp.UnmarshalTo; "message" = c.SendMessage; "for" = c.SendFor expecting a reply of type InTyp
+	Via   string `json:"via"`
+	InTyp int    `json:"in_typ"`
 }
 
 type c04Scenario struct {
@@ -107,6 +113,78 @@ type c04Caller struct {
 	DataErr    bool      `json:"data_err"`
 	DLen       int       `json:"dlen"`
 	MD5        string    `json:"md5"`
+	Via        string    `json:"via"`
+	// TypOnly: only the reply's type is visible through this API (hdr = 0, type, 0, 0)
+	TypOnly bool `json:"typ_only"`
+}
+
+// verifOut / verifIn: the Outgoing / Incoming values a SendFor caller passes.
+type verifOut struct{ typ MessageType }
+
+func (o verifOut) MarshalBinary() ([]byte, error) { return nil, nil }
+func (o verifOut) Type() MessageType              { return o.typ }
+
+type verifIn struct {
+	typ MessageType
+	verifCapture
+	called bool
+}
+
+func (v *verifIn) UnmarshalBinary(data []byte) error {
+	v.called = true
+	return v.verifCapture.UnmarshalBinary(data)
+}
+func (v *verifIn) Type() MessageType { return v.typ }
+
+// awaitVia sends one request and awaits its reply the way `via` says; it reports what the caller
+// was handed.
+func awaitVia(ctx context.Context, c *Client, typ int, via string, inTyp int) c04Caller {
+	r := c04Caller{Returned: true, Via: via}
+	switch via {
+	case "message":
+		rt, data, err := c.SendMessage(ctx, MessageType(typ), nil)
+		r.Err = errClass(err)
+		if err == nil {
+			r.TypOnly = true
+			r.Hdr = [4]uint32{0, uint32(rt), 0, 0}
+			r.DLen, r.MD5 = len(data), md5hex(data)
+		}
+	case "for":
+		in := &verifIn{typ: MessageType(inTyp)}
+		err := c.SendFor(ctx, verifOut{MessageType(typ)}, in)
+		r.Err = errClass(err)
+		if err == nil {
+			r.TypOnly = true
+			r.Hdr = [4]uint32{0, uint32(inTyp), 0, 0}
+			r.DLen, r.MD5 = len(in.b), md5hex(in.b)
+			if !in.called { // success without having been given any reply
+				r.DataErr = true
+			}
+		}
+	case "unmarshal":
+		resp, err := c.send(ctx, NewHdrOnlyMsg(MessageType(typ)))
+		r.Err = errClass(err)
+		if err == nil {
+			r.Hdr = hdr4(resp.Header)
+			r.PayloadNil = resp.payload == nil
+			v := &verifCapture{}
+			uerr := resp.UnmarshalTo(v)
+			r.DataErr = uerr != nil
+			r.DLen, r.MD5 = len(v.b), md5hex(v.b)
+		}
+	default:
+		resp, err := c.send(ctx, NewHdrOnlyMsg(MessageType(typ)))
+		r.Err = errClass(err)
+		if err == nil {
+			r.Hdr = hdr4(resp.Header)
+			r.PayloadNil = resp.payload == nil
+			data, derr := resp.data()
+			r.DataErr = derr != nil
+			r.DLen = len(data)
+			r.MD5 = md5hex(data)
+		}
+	}
+	return r
 }
 
 type c04Result struct {
@@ -499,23 +577,14 @@ stepLoop:
 			callers[st.Caller] = cr
 			callerOrder = append(callerOrder, st.Caller)
 			cwg.Add(1)
-			go func(typ int) {
+			go func(st c04Step) {
 				defer cwg.Done()
-				resp, err := c.send(ctx, NewHdrOnlyMsg(MessageType(typ)))
-				r := c04Caller{Returned: true, Err: errClass(err)}
-				if err == nil {
-					r.Hdr = hdr4(resp.Header)
-					r.PayloadNil = resp.payload == nil
-					data, derr := resp.data()
-					r.DataErr = derr != nil
-					r.DLen = len(data)
-					r.MD5 = md5hex(data)
-				}
+				r := awaitVia(ctx, c, st.Typ, st.Via, st.InTyp)
 				obs.mu.Lock()
 				r.Caller, r.ReqID = cr.Caller, cr.ReqID
 				*cr = r
 				obs.mu.Unlock()
-			}(st.Typ)
+			}(st)
 			// wait until the peer has seen the request (skip acks)
 			tm := time.After(step)
 		waitReq:
